@@ -42,6 +42,9 @@ def drive(sc):
            # (the method name is case-insensitive: every second scenario spells it in capitals)
            "optimizer": {"method": "rvscipy/" + (method.upper() if (sc["maxit"] > 0 and sc["options"] == "dict") or ((len(sc["nl"]) + len(sc["lin"])) % 2 == 1 and not sc["maxit"]) else method)},
            "gradient": {"number_of_perturbations": 4, "perturbation_magnitudes": 0.01}}
+    vectorized = method == "differential_evolution" and nnl >= 2 and sc["maxit"] == 0
+    if vectorized:
+        cfg["optimizer"]["parallel"] = True
     if masked:
         cfg["variables"]["mask"] = [True, False, False] if fix23 else [True, False, True]
     if sc["maxit"]:
@@ -125,6 +128,16 @@ def drive(sc):
                 if hasattr(c, "A"):
                     A = np.atleast_2d(c.A)
                     vals = [nums(A @ free_vec(g), tol=1e-6) for g in GRID]
+                elif vectorized:
+                    # the vectorized convention of differential_evolution: a (variables, members) matrix per call, one column
+                    # per population member - here as many members as there are non-linear constraints (a square result)
+                    vals = []
+                    for k in range(0, len(GRID), nnl):
+                        chunk = GRID[k:k + nnl]
+                        while len(chunk) < nnl:
+                            chunk = chunk + [GRID[0]]
+                        out = np.asarray(c.fun(np.stack([free_vec(g) for g in chunk], axis=1)))
+                        vals += [nums(np.atleast_1d(out[:, j]), tol=1e-6) for j in range(min(nnl, len(GRID) - k))]
                 else:
                     vals = [nums(np.atleast_1d(c.fun(free_vec(g))), tol=1e-6) for g in GRID]
                 e["objs"].append({"vals": vals, "lb": nums(np.atleast_1d(c.lb)), "ub": nums(np.atleast_1d(c.ub))})
